@@ -47,6 +47,9 @@ def gen_cases(tier, seed):
     for k in range(36 if tier == "quick" else 600):
         # appended later: rank-changing memory-only operators inside accelerated flows, EXP / SQUARED_DIFFERENCE lowerings
         cases.append({"family": ["shape-ops", "approx-tail2", "shape-ops"][k % 3], "nseed": int(seed * 1000003 + 900000 + k), "cfg": cfggen.rand_cfg(rng), "cli": k % 6 == 0})
+    for k in range(24 if tier == "quick" else 400):
+        # appended later: the output of a compilation is compiled again
+        cases.append({"family": ["tiny", "exact-chain", "cpu-mix", "shape-ops", "approx-tail", "lut-stress"][k % 6], "nseed": int(seed * 1000003 + 950000 + k), "cfg": cfggen.rand_cfg(rng), "cli": False, "recompile": True})
     return cases
 
 
@@ -121,6 +124,18 @@ def run_case(case):
             counters["inproc_candidate_not_confirmed"] = 1
         if v2 in ("ok-compiled", "ok-rejected") and v in ("ok-compiled", "ok-rejected") and v != v2:
             counters["inproc_cli_outcome_differs"] = 1
+    if case.get("recompile") and v == "ok-compiled" and res.out_path and os.path.exists(res.out_path):
+        # the compiler's own output is a structurally valid model too (Ethos-U custom operators with their command stream / constants / scratch operands, the
+        # offline-allocation metadata): feeding it to the command line again must compile (the custom operators stay as they are) or be rejected with a diagnosis
+        rc2 = vc.run_cli(res.out_path, case["cfg"], os.path.join(d, "outre"), timeout=200)
+        v3, mech3, msg3 = classify(rc2)
+        counters["recompiled_outputs"] = 1
+        counters["recompiled_" + v3] = 1
+        if v3 == "violation":
+            violations.append({"mech": "recompiled-output:" + mech3, "msg": "compiling the model this compilation wrote: " + str(msg3), "witness": {"argv": rc2.argv[1:], "family": net.info["family"], "nseed": case["nseed"],
+                                                                                                                       "stderr_tail": (rc2.stderr or "")[-1500:]}})
+        elif v3 == "timeout":
+            inconc = "cli watchdog (recompile)"
     sets["outcome"] = [final]
     if final == "ok-rejected":
         sets["reject_msgs"] = [(msg or "")[:80]]
